@@ -133,6 +133,13 @@ def check(run, prog: Program):
 
     r2(run, prog)
     r3(run, prog)
+    # NumPy functions that write into "their own copy" of an argument (np.nan_to_num, np.array(z)[...] = ...) obtain that copy
+    # from z.__array__(copy=True): it must be fresh storage
+    from ..spec import Checker
+    from .c17 import array_copy_protocol
+    array_copy_protocol(Checker(run, prog), prog, "R1")
+    from ..structural import overwrite_report
+    overwrite_report(Checker(run, prog), prog, "R1")
 
 
 def r2(run, prog):
